@@ -142,15 +142,9 @@ def doCond (P : Prog) (c : Nat) (s : St) : Bool × St :=
 
 def isYieldStmt (P : Prog) (f : Nat) : Bool := (P.calls.getD f default).kind == 2
 
-/-- P = P′ with the pure yield statements erased -/
-def erase (P : Prog) : Stmt → Stmt
-  | .call f => if isYieldStmt P f then .skip else .call f
-  | .seq s t => .seq (erase P s) (erase P t)
-  | .ite c t e => .ite c (erase P t) (erase P e)
-  | .loop l c p b => .loop l c (match p with | .call f => if isYieldStmt P f then .none else .call f | p => p) (erase P b)
-  | .sw l b => .sw l (erase P b)
-  | .block s => .block (erase P s)
-  | s => s
+/-- P = P′ with the pure yield statements erased (`GV.Ctrl.eraseCalls`, proved semantics-preserving in
+    `GV.Props.C02.erase_correct`) -/
+def erase (P : Prog) (s : Stmt) : Stmt := eraseCalls (isYieldStmt P) s
 
 def fuelMax : Nat := 200000
 
